@@ -16,15 +16,41 @@ from specs.shared import REPO_PY, ADAPTERS_PY, UTILS_PY, UF
 AEADOBJ = models.opaque_type('AEAD')
 
 
+def aead_size_attrs(cls):
+    """names of the two private attributes in which the cipher object keeps its nonce and key lengths - found by what the code does with
+    them (the argument of os.urandom in `encrypt`; what the key-length accessor returns), not by how they are spelt"""
+    import ast as _ast
+    from vf import source
+    nonce_attr, key_attr = '_nonce_bytes', '_key_bytes'
+    try:
+        enc = source.select(ADAPTERS_PY, source.resolve_method(ADAPTERS_PY, cls, 'encrypt'))
+        for n in _ast.walk(enc):
+            if isinstance(n, _ast.Call) and _ast.unparse(n.func).endswith('urandom') and n.args and isinstance(n.args[0], _ast.Attribute) \
+                    and isinstance(n.args[0].value, _ast.Name) and n.args[0].value.id == enc.args.args[0].arg:
+                nonce_attr = n.args[0].attr
+    except Exception:
+        pass
+    for acc in ('key_bytes', 'key_length', 'key_size'):
+        try:
+            fn = source.select(ADAPTERS_PY, source.resolve_method(ADAPTERS_PY, cls, acc))
+        except Exception:
+            continue
+        rets = [n.value for n in _ast.walk(fn) if isinstance(n, _ast.Return) and isinstance(n.value, _ast.Attribute)]
+        if len(rets) == 1:
+            key_attr = rets[0].attr
+            break
+    return key_attr, nonce_attr
+
+
 def aead_setup_for(cls):
     def aead_setup(b):
         nb = sym.const(INT, 'nonce_bytes')
         b.assume(nb.z >= 1)
         b.nb = nb
-        me = Obj('self', _nonce_bytes=nb,
-                 cipher_class=Model('cipher_class', lambda i, s, a, k: iter([(s, SV(AEADOBJ, UF('aead_of_key', BYTES, AEADOBJ)(sym.lift(a[0], BYTES).z)))])))
+        me = Obj('self', cipher_class=Model('cipher_class', lambda i, s, a, k: iter([(s, SV(AEADOBJ, UF('aead_of_key', BYTES, AEADOBJ)(sym.lift(a[0], BYTES).z)))])))
         # `self` is an instance of the CONCRETE cipher class: helpers encrypt() calls are resolved through its MRO and
         # inlined from the real source (an override in the subclass is what runs); other state is unknown
+        me._attrs[aead_size_attrs(cls)[1]] = nb
         me._class_source = (ADAPTERS_PY, cls)
         me._lenient = True
         b.bind('self', me)
@@ -558,7 +584,8 @@ def aead_ctor_post(prop, cls):
                 kb, nb = (z3.IntVal(x) for x in FIXED_AEAD_SIZES[cls])
             else:
                 raise sym.Unsupported(f'no documented key/nonce size source for cipher class {cls}')
-            got_k, got_n = p.st.ghost.get(('attr', '_key_bytes')), p.st.ghost.get(('attr', '_nonce_bytes'))
+            ka, na = aead_size_attrs(cls)
+            got_k, got_n = p.st.ghost.get(('attr', ka)), p.st.ghost.get(('attr', na))
             ok = got_k is not None and got_n is not None
             # the object encrypts with keys of key_bits/8 bytes and prefixes nonces of nonce_bits/8 bytes: the sizes the stored config
             # states (what an independent reader of the format splits each object by)
